@@ -301,9 +301,26 @@ impl ASN1Type {
     ) -> Result<(), GrammarError> {
         match self {
             ASN1Type::ChoiceSelectionType(c) => {
-                if let Some(ToplevelDefinition::Type(parent)) = tlds.get(&c.choice_name) {
-                    *self = parent.ty.clone();
-                    Ok(())
+                if let Some(ToplevelDefinition::Type(ToplevelTypeDefinition {
+                    ty: ASN1Type::Choice(parent),
+                    ..
+                })) = tlds.get(&c.choice_name)
+                {
+                    if let Some(selected) = parent
+                        .options
+                        .iter()
+                        .find(|option| option.name == c.selected_option)
+                    {
+                        *self = selected.ty.clone();
+                        Ok(())
+                    } else {
+                        Err(grammar_error!(
+                            LinkerError,
+                            "Could not find alternative {} in Choice {} of selection type.",
+                            c.selected_option,
+                            c.choice_name
+                        ))
+                    }
                 } else {
                     Err(grammar_error!(
                         LinkerError,
